@@ -163,7 +163,7 @@ Fixpoint logp_up_o (fuel : nat) (a puiss : Z) (pows : list Z) : option (list Z) 
   let pows1 := puiss :: pows in
   let puiss1 := opMulEq_I puiss puiss in
   if opLe_I puiss1 a then match fuel with O => None | S f => logp_up_o f a puiss1 pows1 end else Some pows1.
-(*@ logp | src/kernel/gmp++/gmp++_int_misc.C | int64_t logp(const Integer& a, const Integer& p) | 967cc5314ebd *)
+(* HISTORY: the body before /repo 2291e98 (frag/C01.fix-6.diff): no test of the base *)
 Definition logp_o (a p : Z) : outcome :=
   if opLt_I a p then Ret 0 else
   match logp_up_o (Z.to_nat (Z.log2 a)) a (ctor_copy p) nil with
@@ -178,7 +178,8 @@ Definition logp (a p : Z) : Z :=
   | nil => 0
   | puiss :: pows => logp_down a puiss pows (2 ^ Z.of_nat (List.length pows))
   end.
-(* the body after frag/C01.fix-6.diff: a base below 2 is rejected (`p < 2` is Integer::operator<(int32_t)) *)
+(* the body in the tree (since /repo 2291e98): a base below 2 is rejected (`p < 2` is Integer::operator<(int32_t)) *)
+(*@ logp | src/kernel/gmp++/gmp++_int_misc.C | int64_t logp(const Integer& a, const Integer& p) | 3ed29b452ccb *)
 Definition logp_fixed_o (a p : Z) : outcome := if opLt_i32 p 2 then Throws else logp_o a p.
 
 (* ------------------------------------------------------------------ gmp++_int_gcd.C: pp(P,Q), the part of P prime to Q (a loop of givaro's own).
@@ -195,11 +196,12 @@ Fixpoint pp_loop_o (fuel : nat) (U V : Z) : outcome :=
   | S f => if opNe_I V Integer_one then let U1 := Z.quot U V in pp_loop_o f U1 (gcd_v U1 V) else Ret U
   end.
 Definition pp_fuel (P : Z) : nat := S (S (Z.to_nat (Z.log2 (Z.abs P)))).
-(*@ pp | src/kernel/gmp++/gmp++_int_gcd.C | Integer pp( const Integer& P, const Integer& Q ) | ac2e1184027a *)
+(* HISTORY: the body before /repo 348f995 (frag/C01.fix-5.diff): no test of P = 0 *)
 Definition pp_o (P Q : Z) : outcome := pp_loop_o (pp_fuel P) (ctor_copy P) (gcd_v P Q).
 (* total companion used in the proofs (= pp_o for P <> 0: ProofsLoops.pp_o_ret) *)
 Definition pp (P Q : Z) : Z := pp_loop (S (Z.to_nat (Z.log2 (Z.abs P)))) (ctor_copy P) (gcd_v P Q).
-(* the body after frag/C01.fix-5.diff: P = 0 returns 0 before the loop *)
+(* the body in the tree (since /repo 348f995): P = 0 returns 0 before the loop *)
+(*@ pp | src/kernel/gmp++/gmp++_int_gcd.C | Integer pp( const Integer& P, const Integer& Q ) | 0c8bebf2665f *)
 Definition pp_fixed_o (P Q : Z) : outcome :=
   let U := ctor_copy P in let V := gcd_v P Q in if isZero_I U then Ret U else pp_loop_o (pp_fuel P) U V.
 
